@@ -9,10 +9,12 @@
 (*                                                                         *)
 (* Contract layer:  Accept  = the set of acceptable outcomes (rendered      *)
 (*   signatures of every mock in the file + required / forbidden imports). *)
-(*   A parameter/result whose type IS the named (or alias) type must be    *)
-(*   the replacement; occurrences nested under a constructor ([]T, *T,     *)
-(*   map[K]T, chan T, func(T) T, ...T) and the other spelling of the same  *)
-(*   type (alias vs. named) are left open by the documentation             *)
+(*   A parameter/result whose type IS the configured named (or alias)      *)
+(*   type -- identified by package path + name -- must be the replacement; *)
+(*   the same type under another name (its alias / its target / an alias   *)
+(*   in a third package) has no entry of its own and stays unchanged;      *)
+(*   occurrences nested under a constructor ([]T, *T, map[K]T, chan T,     *)
+(*   func(T) T, ...T) are left open by the documentation                   *)
 (*   (docs/replace-type.md says "all instances", the property says         *)
 (*   "exactly that named type"): every combination is accepted.            *)
 (* Code-shaped layer: the replace-type map travels root -> package ->      *)
